@@ -26,9 +26,10 @@ class HexagonTransformerExtension(TransformerExtension):
     is_conditional = False
     branches = False
     writes_predicate = False
-    preds_written = list()  # The numbers of the predicate registers written.
 
     def __init__(self, transformer):
+        # The numbers of the predicate registers written.
+        self.preds_written = list()
         # Variables names used in the shortcode with special meaning.
         self.spec_ids = {"EffectiveAddress": "EA", "iterator_vars": ["i", "k", "j"]}
         self.transformer = transformer
@@ -71,6 +72,7 @@ class HexagonTransformerExtension(TransformerExtension):
         self.reads_mem = False
         self.writes_mem = False
         self.writes_predicate = False
+        self.preds_written.clear()
         self.uses_new = False
         self.branches = False
 
